@@ -26,7 +26,7 @@ RULE = ("each case starts the real engine (1 loop -- or 2-4 loops in the `multi`
         "CountConnections) with a scripted handler doing 0-4 random API calls per callback, stops the engine, and "
         "logs every loop-thread system call with its result, every callback and every value the handler saw; the "
         "extracted model replays the inputs and must predict all outputs and accept the history with every checker. "
-        "A case is non-trivial when it reaches a callback/EAGAIN/async-callback class; distinct by hash of its inputs.")
+        "A case is non-trivial when it reached back-pressure (EAGAIN on read/write), an asynchronous callback, a datagram callback, an injected fault or is a named scenario; distinct by hash of its input lines.")
 
 TRUSTED = ["harness/shim/vunix + lib/vcheck.unix_swap (import swap of golang.org/x/sys/unix in the listed files) and genvunix",
            "Model/Loop.v is hand-written from connection_unix.go, connection_linux.go, eventloop_unix.go, acceptor_unix.go, "
